@@ -22,6 +22,10 @@ func main() {
 		fmt.Println("BUILD-FAILED property=C07 frugal failed on the fixture IDL:", r.Stdout, r.Stderr)
 		os.Exit(2)
 	}
+	if r := h.Gen("", filepath.Join(ev.Root(), "fixtures"), "c07scopes.frugal", ""); r.ExitCode != 0 {
+		fmt.Println("BUILD-FAILED property=C07 frugal failed on fixtures/c07scopes.frugal:", r.Stdout, r.Stderr)
+		os.Exit(2)
+	}
 	if err := h.CopySources(filepath.Join(ev.Root(), "harness/c07"), "c07"); err != nil {
 		fmt.Println(err)
 		os.Exit(2)
